@@ -33,6 +33,27 @@ Theorem C02_istream_records :
 Proof. exact istream_records. Qed.
 Print Assumptions C02_istream_records.
 
+(* regular file read through mmap windows (and the fall back to read() when mmap refuses an
+   empty mapping): all file contents, all start offsets of the descriptor, all page sizes,
+   all window sizes >= one page (the constructor's is >= two pages, next theorem) *)
+Theorem C02_file_path_records :
+  forall page cap file off script d cr,
+  1 <= page -> page <= cap -> off <= length file -> no_err script = true ->
+  detect_magic (skipn off file) = false ->
+  exists s sf, fp_open_file page cap file off script = Ok s /\
+    read_all d cr s = (Ok (records d cr (skipn off file)), sf) /\
+    (forall d' cr', read_line d' cr' sf = (RlEOF, sf)).
+Proof. exact file_path_records. Qed.
+Print Assumptions C02_file_path_records.
+
+(* default_map_size_ = kPageSize * max(min_buffer / kPageSize + 1, 2) meets the premises above
+   for every min_buffer *)
+Theorem C02_initial_window_admissible :
+  forall page min_buffer, 1 <= page ->
+  page <= initial_cap page min_buffer /\ 1 <= initial_cap page min_buffer.
+Proof. exact initial_cap_ok. Qed.
+Print Assumptions C02_initial_window_admissible.
+
 (* non-vacuity: concrete data meeting the hypotheses, window of 2 bytes that has to double
    and to compact, short reads and an EINTR, CR before the delimiter, empty record,
    unterminated last record *)
@@ -42,6 +63,19 @@ Example C02_nonvacuous_read :
   records 10%Z true src = [[97]; [98]; []; [99]]%Z /\
   match fp_open_read 2 (os_init src [Short 1; Eintr; Short 2]) with
   | Ok s => fst (read_all 10%Z true s) = Ok [[97]; [98]; []; [99]]%Z
+  | Fail _ => False
+  end.
+Proof. vm_compute. repeat split. Qed.
+
+(* mmap path: page size 2, window 4, an 11-byte file read from offset 3 (not page aligned);
+   the window has to move and to double *)
+Example C02_nonvacuous_file :
+  let file := [120; 10; 121; 97; 98; 99; 100; 101; 13; 10; 122]%Z in
+  detect_magic (skipn 3 file) = false /\
+  records 10%Z true (skipn 3 file) = [[97; 98; 99; 100; 101]; [122]]%Z /\
+  match fp_open_file 2 4 file 3 [] with
+  | Ok s => fst (read_all 10%Z true s) = Ok [[97; 98; 99; 100; 101]; [122]]%Z /\
+            rev (fp_maps (snd (read_all 10%Z true s))) = [(2, 4); (2, 8); (10, 1)]
   | Fail _ => False
   end.
 Proof. vm_compute. repeat split. Qed.
